@@ -23,7 +23,9 @@ G1 = ["~id:a~ $[*][ yes() ]", "$[*][no()]", "~ name: third ~ $[1-2][#x == \"y\"]
 G2 = ["~ name: x\n id: b ~\n$[1*][\n #a == \"1\" ~inner~\n]", "~id:a~ $[*][yes()]", "~Id: c ~ $[2][yes()]"]
 G3 = ["~id:a~ $[*][   yes()\n ]", "$[*][no()]", "~ name: third ~ $[1-2][#x  ==  \"y\"]"]   # differs from G1 only by blanks inside a csvpath
 G4 = ["~id: ü1~ $[*][yes()]", "~ name: größe ~ $[1][yes()]", "~ id: 名前 ~ $[2][no()]"]   # identities are not ASCII-only
-GROUPS = {"G1": G1, "G2": G2, "G3": G3, "G4": G4}
+# one comment carrying several spellings of the identity keys: the precedence id > Id > ID > name > Name > NAME decides, not the order written
+G5 = ["~ id: alpha ID: legacy7 ~ $[*][yes()]", "~ Name: beta NAME: B2 ~ $[1][yes()]", "~ NAME: G3 name: gamma ~ $[2][no()]"]
+GROUPS = {"G1": G1, "G2": G2, "G3": G3, "G4": G4, "G5": G5}
 
 
 def ids_of(group):
@@ -176,6 +178,8 @@ CURATED = [
     (("add", "g", "G2"), ("read",), ("remove", "g"), ("add", "g", "G1")),
     (("add", "g", "G4"),),
     (("add", "g", "G1"), ("add", "g", "G4"), ("new",)),
+    (("add", "g", "G5"),),
+    (("add", "g", "G2"), ("add", "g", "G5"), ("new",)),
 ]
 
 
